@@ -566,7 +566,10 @@ func (ft *FT) convert(x *ssa.Convert, st *State, guard Term) {
 			ft.assume("true", forall([][2]string{{"i", "Int"}}, implies(and(app("<=", "0", "i"), app("<", "i", n)), eq(app("select", arr, "i"), app("sat", v, "i")))))
 			ft.set(st, k, app("store", ft.get(st, k), r, arr))
 		} else {
-			ft.assume("true", and(app("<=", "0", n), app("<=", n, app("slen", v))))
+			// []rune(s): the number of code points is a function of the string (runecount), at most its length in bytes
+			rc := ft.ufun("runecount", []Sort{"Str"}, "Int")
+			ft.d.axiom("runecount range", "(forall ((s Str)) (! (and (<= 0 (runecount s)) (<= (runecount s) (slen s))) :pattern ((runecount s))))")
+			ft.assume("true", eq(n, app(rc, v)))
 		}
 		ft.define(x, app("mk-slice", r, "0", n, n))
 	default:
